@@ -68,7 +68,9 @@ L_PFrame(z, r, ln) ==
        LET hi == IF r.f.last >= 0 THEN r.f.last ELSE r.f.first
            mine == z.snd.did >= 0 /\ z.snd.did >= r.f.first /\ z.snd.did <= hi /\ z.snd.st \in {"unsettled", "retired", "dropped"}
            k == r.f.state.tx IN
-       IF r.f.role # "r" \/ ~mine THEN R(z, 0)
+       \* a retirement that names a transaction which is not live has to be refused, whatever it covers
+       IF r.f.role = "r" /\ r.f.state.k = "txn" /\ ~Active(z, k) THEN R([z EXCEPT !.refOwed = @ + 1], 0)
+       ELSE IF r.f.role # "r" \/ ~mine THEN R(z, 0)
        ELSE IF r.f.state.k = "txn" THEN
             (IF z.snd.st = "retired" THEN R(z, 0)      \* a second transactional retirement of the same delivery is not judged
              ELSE IF Active(z, k) THEN R([z EXCEPT !.snd.st = "retired", !.snd.tx = k], 0)
@@ -203,7 +205,7 @@ Step(z, r, ln) ==
                           THEN (IF r.op = "recv" THEN L_RecvRet(z, r, ln)
                                 \* the send resolves with the controller's outcome only once the retirement has taken effect
                                 ELSE IF r.op = "send" /\ r.call = z.snd.call /\ r.res.ok THEN
-                                     R([z EXCEPT !.snd.call = -1], Chk("C18_RetireIsolated", z.snd.st = "settled", ln,
+                                     R([z EXCEPT !.snd.call = -1], Chk("C18_RetireIsolated", z.snd.st = "settled" \/ z.dead, ln,
                                                                         IF z.snd.st = "retired" THEN "before-discharge" ELSE IF z.snd.st = "dropped" THEN "after-rollback" ELSE "unsettled") + Stat("retired"))
                                 ELSE IF r.op = "send" /\ r.call = z.snd.call THEN R([z EXCEPT !.snd.call = -1], 0)
                                 ELSE R(z, 0))
